@@ -87,7 +87,8 @@ func OracleAll(sc pairsim.Scenario, tr pairsim.Trace) (out []*evid.Failure) {
 			bs := blockSize(min(sc.Cli.SZX, sc.Srv.SZX))
 			roundTrips := (op.Up + bs - 1) / bs
 			fits := roundTrips*2*max(sc.Link.LatencyMs, 1)*2 < 3000 && len(sc.Ops) == 1
-			if inv == 0 && faultFree(sc) && fits && op.Code >= 1 && op.Code <= 4 {
+			// (and the link's datagram budget, a harness safeguard against storms, must not have cut it off)
+			if inv == 0 && faultFree(sc) && fits && tr.Storms == 0 && op.Code >= 1 && op.Code <= 4 {
 				report(evid.Failf("bw/oneway-write-never-delivered", sc, "operation %d: a one-way %d-byte message on a fault-free link never reached the receiving application (waited %d ms of virtual time)", i, op.Up, sc.SettleMs))
 			}
 			continue
@@ -224,7 +225,7 @@ func gridEngine(t *testing.T) evid.Engine {
 						// On a fault-free link, with one exchange, ample deadlines and both ends allowing the
 						// same message size, nothing but the library can keep an exchange from completing:
 						// "exactly once" then includes "once" (see DESIGN.md 3/C04).
-						if d != n && sc.Cli.MaxMsg == sc.Srv.MaxMsg {
+						if d != n && sc.Cli.MaxMsg == sc.Srv.MaxMsg && tr.Storms == 0 {
 							o := tr.Ops[0]
 							f := evid.Failf("bw/fault-free-exchange-does-not-complete", sc, "%s %s of %d bytes up / %d bytes down between SZX %d (max %d) and SZX %d (max %d) on a fault-free link ended with code %d, err %q; client errors %.200q, server errors %.200q", sc.Transport, sc.Ops[0].Kind, sc.Ops[0].Up, sc.Ops[0].Down, sc.Cli.SZX, sc.Cli.MaxMsg, sc.Srv.SZX, sc.Srv.MaxMsg, o.Code, o.Err, tr.CliErrs, tr.SrvErrs)
 							f.Engine = "grid"
